@@ -194,9 +194,39 @@ def typeddict_dump_suite(ctx: Ctx, n: int):
                 ctx.fail("dump-value:model-optional-field", "model dumpers return different values", case)
 
 
+def optional_model_loads(ctx: Ctx, eng: morph.Engine, n: int):
+    """the three generated MODEL loaders on models whose first extracted key is optional: absent key / explicit None / value"""
+    import dataclasses
+    from typing import Optional, TypedDict
+    rng = ctx.rng
+    for i in range(n):
+        names = rng.sample(["timeout", "retries", "tags", "alpha", "zeta"], rng.randint(1, 3))
+        fields = []
+        for nm in names:
+            tp, vals = rng.choice([(Optional[int], [None, 0, 30, "bad"]), (Optional[str], [None, "", "x", 5])])
+            fields.append((nm, tp, dataclasses.field(default=rng.choice(vals[:3])), vals))
+        cls = dataclasses.make_dataclass(f"OM{i}", [(a, b, c) for a, b, c, _ in fields])
+        td = TypedDict(f"OMTD{i}", {a: b for a, b, _, _ in fields}, total=False)
+        for _ in range(4):
+            datum = {a: rng.choice(v) for a, _, _, v in fields if rng.random() < 0.75}
+            for hint in (cls, td):
+                for strict in (True, False):
+                    outs = {m: morph.canon_outcome(eng.real.load(m, strict, hint, dict(datum))) for m in morph.MODES}
+                    case = {"probe": "optional-model", "fields": [(a, repr(b), repr(c.default)) for a, b, c, _ in fields],
+                            "datum": repr(datum), "strict": strict, "kind": hint.__name__}
+                    ctx.note_case(case, nontrivial=True, kind="optional-model:" + outs["ALL"]["r"])
+                    kinds = {m: o["r"] for m, o in outs.items()}
+                    if len(set(kinds.values())) != 1:
+                        ctx.fail("accept:model:optional-first-field", f"model loaders disagree on acceptance: {kinds} for {datum!r}", case)
+                    elif kinds["ALL"] == "ok" and not (outs["DISABLE"] == outs["FIRST"] == outs["ALL"]):
+                        ctx.fail("value:model:optional-first-field", f"model loaders return different values for {datum!r}: "
+                                 f"{ {m: o['v'] for m, o in outs.items()} }"[:300], case)
+
+
 def run(ctx: Ctx):
     eng = morph.Engine(ctx)
     one_shot_union_probe(ctx, eng)
+    optional_model_loads(ctx, eng, ctx.budget(40, 800))
     typeddict_dump_suite(ctx, ctx.budget(60, 1500))
     specs = eng.gen_specs(ctx.budget(160, 2500), 3 if ctx.tier == "quick" else 4)
     recs = eng.load_records(specs, suite="load", n_valid=2, n_corrupt=3, n_hostile=2)
